@@ -102,7 +102,7 @@ theorem teardown_only_after_own_close {c : Cfg} {s : Sys} (h : Reachable c s) (p
 
 /-- an `unregisterConnection(p)` is pending in some thread only after `p`'s connection closed -/
 theorem unregister_pending_only_after_close {c : Cfg} {s : Sys} (h : Reachable c s) (ts : List Task)
-    (hts : ts ∈ s.threads) (p : Pid) (hp : Task.unreg p ∈ ts) : s.closed p = true := h.inv.tasksOK ts hts p hp
+    (hts : ts ∈ s.threads) (p : Pid) (hp : Task.unreg p ∈ ts) : s.closed p = true := (h.inv.tasksOK ts hts).1 p hp
 
 /-- step form, for EVERY state and thread: the only atomic action that makes `p` unfindable by UUID is
     `p`'s own teardown — a rejected, duplicate or failed login (`canReg`/`reg` of anybody), a
@@ -191,7 +191,8 @@ theorem lock_never_leaks {c : Cfg} {s : Sys} (h : Reachable c s) : s.held = none
 
 theorem never_blocked {c : Cfg} {s : Sys} (h : Reachable c s) (t : Nat) (task : Task) (rest : List Task)
     (hth : s.threads[t]? = some (task :: rest)) : (step Mode.repaired c s t).isSome = true :=
-  step_enabled Mode.repaired h.inv.free hth
+  step_enabled h.inv.free hth (fun p f o e =>
+    (h.inv.tasksOK _ (List.mem_of_getElem? hth)).2 p f o (e ▸ List.mem_cons_self ..))
 
 /-! ### the code as found: kernel-checked witnesses -/
 
@@ -259,6 +260,26 @@ theorem names_unique_witness_repaired :
     (witnessKick Mode.repaired).map (fun s => (s.ids.get 0, s.ids.get 1, s.names.get 7, s.log.getLast?))
       = some (some 0, none, some 0, some (.ret 1 false)) := by decide
 
+/-- check-then-act.  If unregisterConnection decided ownership in a read section and deleted by key in a
+    later write section, then in kick mode (online, kick flag) with "bob"(uuid 1) online: bob's
+    connection closes and its teardown finds it owns both entries; "Bob"(uuid 2) registers in between and
+    takes over the name entry; the write section deletes it by key — player 1 is registered, connected,
+    never replaced, yet not findable by name -/
+def cKickSameName : Cfg := { online := true, kickFlag := true, nameOf := fun _ => 7, idOf := fun p => p }
+def onlySplitUnreg : Mode := { Mode.repaired with splitUnreg := true }
+def witnessSplit (m : Mode) (sched : List Nat) : Option Sys :=
+  exec m cKickSameName (mkSys [[.reg 0, .disconnect 0], [.reg 1]]) sched
+
+theorem stale_unregister_fails :
+    (witnessSplit onlySplitUnreg [0, 0, 0, 1, 0, 0]).map (fun s => ((s.regd 1, s.torn 1, s.closed 1), s.ids.get 1,
+        s.names.get (cKickSameName.nameOf 1), s.evictedBy 1)) =
+      some ((true, false, false), some 1, (none : Option Pid), (none : Option Pid)) := by
+  decide
+theorem stale_unregister_witness_repaired :
+    (witnessSplit Mode.repaired [0, 0, 0, 1, 0]).map (fun s => (s.regd 1, s.torn 1, s.ids.get 1,
+        s.names.get (cKickSameName.nameOf 1), s.log.getLast?)) =
+      some (true, false, some 1, some 1, some (.disc 0 .successful)) := by decide
+
 /-! ### non-vacuity: kick mode really kicks, then registers -/
 
 /-- online + kick flag, same UUID: the newcomer's thread marks, disconnects and tears down the older
@@ -295,6 +316,26 @@ def deferredRegion (lock unlock : String) : List String → Bool
   | a :: b :: rest => if a = lock then b = "defer:" ++ unlock && !(rest.contains lock)
                       else deferredRegion lock unlock (b :: rest)
   | _ => false
+
+/-- the operations on mutex `mu` a function performs, in source order (deferred ones included) -/
+def muOps (mu : String) (calls : List String) : List String :=
+  calls.filter (fun c => [mu ++ ".Lock", mu ++ ".Unlock", mu ++ ".RLock", mu ++ ".RUnlock",
+    "defer:" ++ mu ++ ".Unlock", "defer:" ++ mu ++ ".RUnlock", mu ++ ".TryLock", mu ++ ".TryRLock",
+    "go:" ++ mu ++ ".Unlock", "go:" ++ mu ++ ".RUnlock"].contains c)
+
+/-- EXACT lock shape of the registry functions: unregisterConnection is ONE write section (no separate
+    read section before it: ownership is decided and acted upon atomically), the readers are one deferred
+    read section, registerConnection is one Lock with an Unlock on each of its four ways out -/
+theorem registry_lock_shape_exact :
+    muOps "p.muP" Gate.Gen.C11.unregisterCalls = ["p.muP.Lock", "p.muP.Unlock"] ∧
+    muOps "p.muP" Gate.Gen.C11.registerCalls =
+      ["p.muP.Lock", "p.muP.Unlock", "p.muP.Unlock", "p.muP.Unlock", "p.muP.Unlock"] ∧
+    muOps "p.muP" Gate.Gen.C11.canRegisterCalls = ["p.muP.RLock", "defer:p.muP.RUnlock"] ∧
+    muOps "p.muP" Gate.Gen.C11.playerCalls = ["p.muP.RLock", "defer:p.muP.RUnlock"] ∧
+    muOps "p.muP" Gate.Gen.C11.playerByNameCalls = ["p.muP.RLock", "defer:p.muP.RUnlock"] ∧
+    muOps "p.muP" Gate.Gen.C11.playerCountCalls = ["p.muP.RLock", "defer:p.muP.RUnlock"] ∧
+    -- nothing returns from unregisterConnection before its section (no fast path around the lock)
+    (Gate.Gen.C11.unregisterCalls.takeWhile (· ≠ "p.muP.Lock")).contains "return" = false := by decide
 
 /-- registerConnection: one `Lock`; every exit after it is preceded by `Unlock` (no lock leak) -/
 theorem register_exits_unlocked :
